@@ -13,7 +13,7 @@ S64 = K.SENT['int64_t']          # stands for "untouched cell" of a float buffer
 
 # theorem name -> (kernel, kind)   kind in k_safe | k_spec | k_width | aux
 PROVED = {}
-PROPS_FILES = ['Props_C13.v', 'Props_C13d.v']
+PROPS_FILES = ['Props_C13.v', 'Props_C13d.v', 'Props_C13h.v']
 for _fn in PROPS_FILES:
     _pth = os.path.join(COQ13, _fn)
     if os.path.exists(_pth):
